@@ -227,6 +227,9 @@ def find_witness(obl, repo, scratch):
             if obl.extra.get('sweep'):
                 return obl.extra['sweep']
             return verus_witness(obl.unit, repo, scratch)
+        if obl.engine == 'native' and obl.fn:
+            # the obligation itself is a run of the harness against the real crate: its failing assertion is the witness
+            return {'witness': {'native_replay_of_harness': obl.fn, 'result': obl.detail}}
         if obl.engine == 'kani' and obl.fn:
             import nativereplay
             r = nativereplay.run(repo, scratch, obl.fn)
